@@ -144,9 +144,23 @@ func c15case(fail func(string, ...any), tr *transcript, k *gen.Kind, vals []ref.
 	for _, mode := range []string{"fresh", "reset"} {
 		target := k.New()
 		if mode == "reset" {
-			target.AppendBulk(vals)
-			if len(vals) > 0 {
-				target.Append(vals[0])
+			// Prime with DIFFERENT content (complemented wire bytes, one row more), then Reset:
+			// anything that survives the reset shows up as a wrong value.
+			inv := make([]byte, 0, len(want.B)+w)
+			for _, b := range want.B {
+				if k.Scalar == "Bool" {
+					inv = append(inv, 1-b)
+				} else {
+					inv = append(inv, ^b)
+				}
+			}
+			extra := make([]byte, w)
+			if k.Scalar == "Bool" {
+				extra[0] = 1
+			}
+			inv = append(inv, extra...)
+			if err := libDecodeColumn(target.Column(), inv, len(vals)+1); err != nil {
+				fail("%s: priming decode failed: %v", k.T.Name, err)
 			}
 			target.Column().Reset()
 		}
